@@ -588,7 +588,7 @@ class Engine:
                 pay.fields[0] = operand(p, mm.group(3))
             return enum_obj(VARIANTS[mm.group(1)], mm.group(1), pay)
         # struct / enum-variant aggregate:  Path { f: op, .. }  or  Enum::Variant { .. } / Enum::Variant
-        m = re.match(r'([\w:<>\', &]+?) \{ (.*) \}$', rv)
+        m = re.match(r'([\w:<>\', &]+?) \{ (.*) \}$', rv) or re.match(r'(\{closure@[^}]*\}) \{ (.*) \}$', rv)
         if m:
             val = Obj('agg%d:%s' % (next(Obj.cnt), m.group(1)[-30:]))
             val.agg_type = m.group(1)
